@@ -326,52 +326,33 @@ func checkNonce(r *Run, fnName string) {
 	// collect rejecting comparisons: If on (st OP msg) whose taken edge leads only to returns with non-nil error
 	rejectsLow, rejectsHigh := false, false // state > msg rejected ; state < msg rejected
 	found := 0
-	for _, b := range fn.Blocks {
-		iff := blockIf(b)
-		if iff == nil {
-			continue
+	var scan func(f *ssa.Function, depth int)
+	seen := map[*ssa.Function]bool{}
+	scan = func(f *ssa.Function, depth int) {
+		if seen[f] || f.Blocks == nil {
+			return
 		}
-		v, flip := stripNot(iff.Cond)
-		bo, ok := v.(*ssa.BinOp)
-		if !ok {
-			continue
+		seen[f] = true
+		for _, b := range f.Blocks {
+			scanNonceBlock(b, isStateNonce, isMsgNonce, &found, &rejectsLow, &rejectsHigh)
 		}
-		var op token.Token
-		switch {
-		case isStateNonce(bo.X) && isMsgNonce(bo.Y):
-			op = bo.Op
-		case isMsgNonce(bo.X) && isStateNonce(bo.Y):
-			op = mirror(bo.Op)
-		default:
-			continue
+		if depth >= 2 {
+			return
 		}
-		found++
-		// relation (state OP msg) holds on the true edge (or its negation when flipped)
-		trueRejects := edgeRejects(b.Succs[0])
-		falseRejects := edgeRejects(b.Succs[1])
-		if flip {
-			trueRejects, falseRejects = falseRejects, trueRejects
-		}
-		rel := func(o token.Token, rejects bool) {
-			if !rejects {
+		// same-package helpers whose error verdict the caller passes on: `return g(..)` or `if err := g(..); err != nil { return err }`
+		allInstrs(f, func(ins ssa.Instruction) {
+			c, ok := ins.(*ssa.Call)
+			if !ok {
 				return
 			}
-			switch o {
-			case token.GTR:
-				rejectsLow = true
-			case token.GEQ:
-				rejectsLow = true
-			case token.LSS:
-				rejectsHigh = true
-			case token.LEQ:
-				rejectsHigh = true
-			case token.NEQ:
-				rejectsLow, rejectsHigh = true, true
+			g := c.Call.StaticCallee()
+			if g == nil || g.Pkg != f.Pkg || !isErrorType(c.Type()) || !errVerdictPassedOn(f, c) {
+				return
 			}
-		}
-		rel(op, trueRejects)
-		rel(negate(op), falseRejects)
+			scan(g, depth+1)
+		})
 	}
+	scan(fn, 0)
 	if found == 0 {
 		r.Viol("C05.nonce", name, "nonce comparison", "no comparison between the state nonce and the message nonce found", p.pos(fn.Pos()), nil)
 		return
@@ -379,6 +360,74 @@ func checkNonce(r *Run, fnName string) {
 	r.Check(rejectsLow, "C05.nonce", name, "state nonce > message nonce rejected", "a used nonce is rejected", "a transaction whose nonce is below the account nonce is not rejected", p.pos(fn.Pos()))
 	r.Check(rejectsHigh, "C05.nonce", name, "state nonce < message nonce rejected", "a nonce gap is rejected",
 		"only nonce-too-low is rejected: a transaction with a nonce gap executes, the account nonce moves to stateNonce+1 <= message nonce, and the same signed transaction is executable again", p.pos(fn.Pos()))
+}
+
+func scanNonceBlock(b *ssa.BasicBlock, isStateNonce, isMsgNonce func(ssa.Value) bool, found *int, rejectsLow, rejectsHigh *bool) {
+	iff := blockIf(b)
+	if iff == nil {
+		return
+	}
+	v, flip := stripNot(iff.Cond)
+	bo, ok := v.(*ssa.BinOp)
+	if !ok {
+		return
+	}
+	var op token.Token
+	switch {
+	case isStateNonce(bo.X) && isMsgNonce(bo.Y):
+		op = bo.Op
+	case isMsgNonce(bo.X) && isStateNonce(bo.Y):
+		op = mirror(bo.Op)
+	default:
+		return
+	}
+	*found++
+	// relation (state OP msg) holds on the true edge (or its negation when flipped)
+	trueRejects := edgeRejects(b.Succs[0])
+	falseRejects := edgeRejects(b.Succs[1])
+	if flip {
+		trueRejects, falseRejects = falseRejects, trueRejects
+	}
+	rel := func(o token.Token, rejects bool) {
+		if !rejects {
+			return
+		}
+		switch o {
+		case token.GTR:
+			*rejectsLow = true
+		case token.GEQ:
+			*rejectsLow = true
+		case token.LSS:
+			*rejectsHigh = true
+		case token.LEQ:
+			*rejectsHigh = true
+		case token.NEQ:
+			*rejectsLow, *rejectsHigh = true, true
+		}
+	}
+	rel(op, trueRejects)
+	rel(negate(op), falseRejects)
+}
+
+// errVerdictPassedOn: the error returned by call c is handed to f's caller: returned directly, or every path on which it is
+// non-nil ends in a return with a non-nil error.
+func errVerdictPassedOn(f *ssa.Function, c *ssa.Call) bool {
+	for _, ret := range returnsOf(f) {
+		for _, v := range ret.Results {
+			if v == ssa.Value(c) {
+				return true
+			}
+		}
+	}
+	edges := condEdges(f, func(cond ssa.Value, _ *ssa.If) int {
+		return -nilCond(cond, func(y ssa.Value) bool { return y == ssa.Value(c) })
+	})
+	for _, e := range edges {
+		if edgeRejects(e.To()) {
+			return true
+		}
+	}
+	return false
 }
 
 func mirror(op token.Token) token.Token {
